@@ -16,6 +16,7 @@ def build(eng, tier):
     ir_targets.build(eng, tier, "C06")
     from . import C12
     add_rename_target(eng)
+    add_value_name_target(eng)
     C12.add_sort_target(eng)      # Graph.sort: ValueError exit => nothing changed (last target: switches to lenient mode)
 
 
@@ -51,4 +52,47 @@ def add_rename_target(eng):
     t.dead = ["values = (values,)", "names = (names,)", "raise TypeError(f'name must be a string"]
     t.local_containers = ("values", "names", "target_by_value", "ordered_pairs", "initializer_pairs_by_graph", "initializer_values_by_graph",
                           "seen_targets", "renamed_initializers", "initializer_pairs")
+    eng.add_target(t)
+
+
+def add_value_name_target(eng):
+    """Value.name = x: every rejection (None/empty/colliding name of an initializer) AND a failure of the backing tensor's own
+    name setter (e.g. a proto-backed tensor refusing the string) happens before the value is renamed or the initializer
+    map is touched - so the initializer stays stored under its current name whether the call succeeds or raises."""
+    from pyvc.core import Exc, FnDecl
+    from pyvc.engine import Target
+    from pyvc.sem_stmt import NEXT
+    from pyvc.types import NULL, STR, TOpt, VOpaque, VRef
+    CORE = "onnx_ir._core"
+    unchanged = "unchanged('Value._name', 'Value._graph', 'Value._is_initializer')"
+
+    def ir_mutator(what):
+        def impl(e, p, args, kwargs, node):
+            p.ghost["$ir_dirty"] = f"{what} at L{node.lineno}"
+            e.havoc_heap(p, None)
+            q = p.copy()
+            return [(p, VOpaque("result of " + what)), (q, Exc("AnyException", f"L{node.lineno}:{what}"))]
+        return impl
+
+    def setup(e, p, env):
+        e.lenient = True
+        e.functions["stdlib:_collections_abc.MutableMapping.pop"] = FnDecl("initializers.pop", "builtin", impl=ir_mutator("initializers.pop"))
+        e.functions["onnx_ir._graph_containers.GraphInitializers.__setitem__"] = FnDecl("initializers[k]=v", "builtin", impl=ir_mutator("initializers.__setitem__"))
+        e.functions["onnx_ir._graph_containers.GraphInitializers.__getitem__"] = FnDecl("initializers[k]", "builtin",
+            impl=lambda e2, p2, a, k, n: [(p2, VOpaque("initializer entry")), (p2.copy(), Exc("KeyError", f"L{n.lineno}"))])
+        orig = e.set_attr
+
+        def set_attr(p2, obj, name, v, node):
+            q = p2.copy()          # before the store: the forks below reuse p2
+            res = orig(p2, obj, name, v, node)
+            if isinstance(obj, VRef) and obj.cls == "TensorLike" and name == "name":
+                # the tensor's own name setter may refuse the name (proto-backed tensors: non-str / unencodable text)
+                q.assume(obj.z != NULL)
+                res = list(res) + [(q, ("raise", Exc("TensorNameError", f"L{node.lineno}:tensor.name setter")))]
+            return res
+        e.set_attr = set_attr
+    t = Target("Value.name[setter]", mod=CORE, qual="Value.name", kind="setter", self_cls="Value", params={"value": STR},
+               requires=[], ensures=[], setup=setup, dead=["raise ValueError('Initializer value cannot have name set to None"],
+               raises={"ValueError": [unchanged, "ir_clean()"], "TensorNameError": [unchanged, "ir_clean()"]}, raises_default=[], assert_mode="raise")
+    t.local_containers = ()
     eng.add_target(t)
